@@ -15,23 +15,56 @@ var model = map[string]string{}
 var seq = map[string]int{}
 var params = map[string]int{}
 
-func init() {
-	if p := os.Getenv("VERIF_MODEL"); p != "" {
-		b, err := os.ReadFile(p)
-		if err != nil {
-			panic(err)
+type replayCase struct {
+	Name   string            `json:"name"`
+	Model  map[string]string `json:"model"`
+	Params map[string]int    `json:"params"`
+	Repeat int               `json:"repeat"`
+}
+
+// RunAll replays every case listed in the JSON file named by $VERIF_MODELS.
+func RunAll(h func()) {
+	p := os.Getenv("VERIF_MODELS")
+	if p == "" {
+		fmt.Println("VERIF-NOMODELS")
+		return
+	}
+	b, err := os.ReadFile(p)
+	if err != nil {
+		panic(err)
+	}
+	var cases []replayCase
+	if err := json.Unmarshal(b, &cases); err != nil {
+		panic(err)
+	}
+	for _, c := range cases {
+		n := c.Repeat
+		if n < 1 {
+			n = 1
 		}
-		var m struct {
-			Model  map[string]string `json:"model"`
-			Params map[string]int    `json:"params"`
+		for r := 0; r < n; r++ {
+			model = c.Model
+			if model == nil {
+				model = map[string]string{}
+			}
+			params = c.Params
+			if params == nil {
+				params = map[string]int{}
+			}
+			seq = map[string]int{}
+			resetHooks()
+			fmt.Printf("VERIF-BEGIN %s\n", c.Name)
+			Run(h)
+			fmt.Printf("VERIF-END %s\n", c.Name)
 		}
-		if err := json.Unmarshal(b, &m); err != nil {
-			panic(err)
-		}
-		model = m.Model
-		if m.Params != nil {
-			params = m.Params
-		}
+	}
+}
+
+var hooks []func()
+
+func resetHooks() {
+	for _, f := range hooks {
+		f()
 	}
 }
 
